@@ -7,7 +7,8 @@ Case kinds
   cyc  one diagram (FKM-Goodman with or without M2 | five-segment | from_dict, the latter in every admissible listing
        order of its segments = the rotations of the ascending order, C12.rotations), a frame of cycles (range/mean or
        from/to), 1-2 successive targets, through HaighDiagram.transform (+ plain functions / accessors in the oracle)
-  frm  per-element parameter FRAME with different rows (Goodman / five-segment incl. different R12/R23) and a collective
+  frm  per-element parameter FRAME with different rows (Goodman / five-segment incl. different R12/R23; optionally surplus rows with
+       break points of their own = ignored, or a missing row = refused; frame per (element, node) or per element only) and a collective
        whose index carries the element key (named index, (key, cycle_number) MultiIndex in any level order, unsorted
        rows, two-level keys) through df.meanstress_transform.*; compared label by label.  Optional fields: `surplus`
        = parameter rows no cycle refers to (ignored by the code, same result demanded), `drop` = the parameter row of
@@ -219,11 +220,17 @@ def frm_frames(case):
     names = GNAMES if case["kind"] == "g" else FNAMES
     ncol = len(case["rows"][0])
     pperm = case.get("pperm") or list(range(len(case["keys"])))
-    entries = [(tuple(case["keys"][i]), list(case["rows"][i])) for i in pperm if i != case.get("drop")]
+    npl = case.get("plevels") or len(knames)      # the parameter frame is indexed by the first `npl` key levels (diagram per element,
+    dropped = None if case.get("drop") is None else tuple(case["keys"][case["drop"]][:npl])      # cycles per (element, node))
+    entries = []
+    for i in pperm:
+        k = tuple(case["keys"][i][:npl])
+        if k != dropped and k not in [e[0] for e in entries]:
+            entries.append((k, list(case["rows"][i])))
     for j, (k, r) in enumerate(case.get("surplus") or []):       # diagrams no cycle refers to: ignored by the code
         entries.insert(min(2 * j + 1, len(entries)), (tuple(k), list(r)))
     pk = [e[0] for e in entries]
-    pidx = pd.Index([k[0] for k in pk], name=knames[0]) if len(knames) == 1 else pd.MultiIndex.from_tuples(pk, names=knames)
+    pidx = pd.Index([k[0] for k in pk], name=knames[0]) if npl == 1 else pd.MultiIndex.from_tuples(pk, names=knames[:npl])
     par = pd.DataFrame([e[1] for e in entries], columns=names[:ncol], index=pidx, dtype=float)
     return df, par, labels
 
@@ -663,10 +670,10 @@ class C12(Prop):
         return {"k": "cyc", "diag": diag, "goals": [enc(g) for g in goals], "iface": iface, "cyc": cyc}
 
     def gen_frm_case(self, rng):
-        kind = rng.choice(["g", "g", "f"])
-        layout = rng.choice(["named", "multi", "multi", "swapped", "mkey"])
+        kind = rng.choice(["g", "f"])
+        layout = rng.choice(["named", "multi", "multi", "swapped", "mkey", "subkey"])
         nk = rng.choice([2, 3, 4])
-        if layout == "mkey":
+        if layout in ("mkey", "subkey"):
             ids = rng.sample([1, 2, 5, 9], 2)
             keys = [[e, n] for e in ids for n in rng.sample(["a", "b", "c"], 2)][:max(nk, 3)]
         else:
@@ -687,7 +694,10 @@ class C12(Prop):
                     seen.add(tuple(r))
                     rows.append(r)
                     break
-        if kind == "g" and rng.random() < 0.2:
+        if layout == "subkey":       # one diagram per element_id, the cycles are indexed by (element_id, node, cycle_number)
+            first = {}
+            rows = [first.setdefault(k[0], r) for k, r in zip(keys, rows)]
+        if kind == "g" and rng.random() < 0.2 and layout != "subkey":
             rows = [[r[0]] for r in rows]          # frame without an 'M2' column
             if len({tuple(r) for r in rows}) < len(rows):
                 rows = [[round(0.9 * (i + 1) / (len(rows) + 1), 3)] for i in range(len(rows))]
@@ -699,7 +709,7 @@ class C12(Prop):
         else:
             ncyc = [rng.choice([1, 2, 3]) for _ in keys]
             order = knames + ["cycle_number"]
-            if layout == "swapped" or (layout == "mkey" and rng.random() < 0.7):
+            if layout == "swapped" or (layout in ("mkey", "subkey") and rng.random() < 0.7):
                 while order == knames + ["cycle_number"]:
                     rng.shuffle(order)
         cyc = [self.enc_cycles(rng, iface, self.gen_cycles(rng, [kind, r], n)) for r, n in zip(rows, ncyc)]
@@ -712,13 +722,27 @@ class C12(Prop):
             rng.shuffle(pperm)
         case = {"k": "frm", "kind": kind, "layout": layout, "keys": keys, "rows": rows, "goal": enc(goal), "iface": iface,
                 "order": order, "cyc": cyc, "perm": perm, "pperm": pperm}
+        if layout == "subkey":
+            case["plevels"] = 1
+        one_level = len(keys[0]) == 1 or layout == "subkey"
         c = rng.random()
-        if c < 0.25:          # diagrams no cycle refers to (ignored)
-            sk = [[9999] if len(keys[0]) == 1 else [keys[0][0], "zz"]]
-            if c < 0.08 and len(keys[0]) == 1:
-                sk.append([-5])
-            case["surplus"] = [[k, [0.9 * v for v in rows[i % len(rows)]] if kind == "g" else list(rows[i % len(rows)])] for i, k in enumerate(sk)]
-        elif c < 0.31:        # a key of the collective without diagram (refused)
+        if c < (0.4 if kind == "f" else 0.25):          # diagrams no cycle refers to (ignored)
+            sk = [[9999] if one_level else [keys[0][0], "zz"]]
+            if rng.random() < 0.3:
+                sk.append([-5] if one_level else [77, keys[0][1]])
+            sur = []
+            for i, k in enumerate(sk):
+                if kind == "g":
+                    r = [0.9 * v for v in rows[i % len(rows)]]
+                else:       # break points R12 / R23 of its own: R intervals that no diagram in use has
+                    r = self.gen_five(rng)
+                    while True:
+                        r[5], r[6] = round(rng.uniform(0.05, 0.45), 4), round(rng.uniform(0.5, 0.95), 4)
+                        if all(r[5] != q[5] and r[6] != q[6] for q in rows):
+                            break
+                sur.append([k, r])
+            case["surplus"] = sur
+        elif c < (0.48 if kind == "f" else 0.31):        # a key of the collective without diagram (refused)
             case["drop"] = rng.randrange(len(keys))
         return case
 
@@ -1199,7 +1223,7 @@ class C12(Prop):
         df0, par0 = df.copy(), par.copy()
         if frm_missing(case):
             d = expects_no_diagram(lambda: frm_call(case, df, par))
-            return None if d is None else (d, "C12")
+            return (d, "C12") if d is not None else self.oracle_frm_matrix(case, par, g)
         self.stats["surplus_diagram_cases"] += bool(case.get("surplus"))
         lc = frm_call(case, df, par)
         if list(par.columns) != list(par0.columns) or not par.equals(par0):
@@ -1233,6 +1257,52 @@ class C12(Prop):
                 d = self._check_cycle(case, diag, segs, g, a, m, amp, (fr + to) / 2.0)
                 if d not in (None, "skip"):
                     return (f"key {key}: " + d, "C12")
+        return self.oracle_frm_matrix(case, par, g)
+
+    def oracle_frm_matrix(self, case, par, g):
+        """The same parameter frame against a MATRIX (histogram route): one class per cycle, index (range, mean, key levels) in the
+        case's level order.  HaighDiagram.<kind>(frame).transform(matrix) = each key's classes transformed with that key's diagram alone
+        (same class intervals, hence bit-identical); Goodman additionally through the matrix accessor (cycles conserved per key)."""
+        M = mst()
+        knames = frm_key_names(case)
+        rows, keyvals = [], []
+        for key, cyc in zip(case["keys"], case["cyc"]):
+            for c in cyc:
+                a, m = amp_mean(case["iface"], c)
+                if a > 1e-9 * max(abs(m), 1e-300):
+                    rows.append((2.0 * a, m))
+                    keyvals.append(tuple(key))
+        if not rows:
+            return None
+        w = [0.25 * r for r, _ in rows]
+        lev = {"range": pd.IntervalIndex.from_arrays([r - x for (r, _), x in zip(rows, w)], [r + x for (r, _), x in zip(rows, w)]),
+               "mean": pd.IntervalIndex.from_arrays([m - x for (_, m), x in zip(rows, w)], [m + x for (_, m), x in zip(rows, w)]),
+               "i": np.arange(len(rows))}
+        for j, n in enumerate(knames):
+            lev[n] = [k[j] for k in keyvals]
+        order = [n for n in case["order"] if n in knames]
+        order = ["range"] + order[:1] + ["mean"] + order[1:] + ["i"] if len(case["perm"] or []) % 2 else ["range", "mean"] + order + ["i"]
+        ser = pd.Series(np.arange(1.0, len(rows) + 1.0), index=pd.MultiIndex.from_arrays([lev[n] for n in order], names=order), name="cycles")
+        make = M.HaighDiagram.fkm_goodman if case["kind"] == "g" else M.HaighDiagram.five_segment
+        if frm_missing(case):
+            d = expects_no_diagram(lambda: make(par.copy()).transform(ser, g))
+            return None if d is None else ("matrix with the parameter frame: " + d, "C12")
+        tr = make(par.copy()).transform(ser, g)["range"]
+        got = dict(zip(tr.index.get_level_values("i"), tr.to_numpy()))
+        if sorted(got) != list(range(len(rows))):
+            return (f"matrix with the parameter frame: result rows {sorted(got)} for {len(rows)} classes", "C12")
+        names = GNAMES if case["kind"] == "g" else FNAMES
+        for i_key, key in enumerate(case["keys"]):
+            sel = [i for i, k in enumerate(keyvals) if k == tuple(key)]
+            if not sel:
+                continue
+            sub = pd.Series(1.0, index=pd.MultiIndex.from_arrays([lev["range"][sel], lev["mean"][sel], np.array(sel)], names=["range", "mean", "i"]), name="cycles")
+            one = make(pd.Series(dict(zip(names, case["rows"][i_key])))).transform(sub, g)["range"]
+            exp = dict(zip(one.index.get_level_values("i"), one.to_numpy()))
+            for i in sel:
+                if f2h(float(got[i])) != f2h(float(exp[i])):
+                    return (f"matrix class of key {key} (range {rows[i][0]}, mean {rows[i][1]}), parameters {case['rows'][i_key]}, target R={g}: with the "
+                            f"parameter frame {got[i]}, with this key's diagram alone {exp[i]}", "C12")
         return None
 
     def oracle_mat(self, case):
